@@ -182,6 +182,37 @@ theorem C04_to_quantity_refuse (pre : List (Rule K)) (q : Q K) (tm : K) (tb : BU
     Q.toQuantity (pre ++ [standard]) q tm tb = (q, false) := by
   simp only [Q.toQuantity, pick_of_declines pre _ _ _ hpre, pick, standard_decline _ _ hd hn hr]
 
+/-! ## Bare numbers that are results; uncertainties -/
+
+/-- Units that cancel exactly, symbol by symbol (`(6 m)/(2 m)`, `m*m-1`, `q**0`: every dict
+    entry has numerator 0) leave exactly the base units of a bare number: no units, `nobase`,
+    factor 1, zero dimensions — so `C04_number_to_rad` applies to such results as it does to
+    a literal number. -/
+theorem C04_cancelled_units_are_bare {A : Type} [Mul A] [One A] [PowFrac A] (tag : Nat) (items : List (Item A))
+    (h : ∀ i ∈ items, i.exp.num = 0) :
+    (mkBU tag items : BU A) = mkBU tag [] := by
+  unfold mkBU
+  generalize ({ magnitude := 1, dims := Dims.zero, units := [], nobase := true, items := [], tag := tag } : BU A) = acc
+  induction items generalizing acc with
+  | nil => rfl
+  | cons i is ih =>
+    have hi : i.exp.num = 0 := h i (by simp)
+    simp only [mkBUAux, hi, beq_self_eq_true, if_true]
+    exact ih (fun j hj => h j (by simp [hj])) acc
+
+theorem C04_bare_number_baseunits {A : Type} [Mul A] [One A] [PowFrac A] (tag : Nat) :
+    (mkBU tag ([] : List (Item A))).nobase = true ∧ (mkBU tag ([] : List (Item A))).units = [] ∧
+    (mkBU tag ([] : List (Item A))).magnitude = 1 ∧ (mkBU tag ([] : List (Item A))).dims = Dims.zero := by
+  simp [mkBU, mkBUAux]
+
+/-- The value a conversion returns does not depend on whether an uncertainty is attached,
+    nor on how the uncertainty is propagated. -/
+theorem C04_value_independent_of_uncertainty (types : List (Rule K)) (q : Q K) (b2 : BU K)
+    (err : Option (Mag K)) (errf : (K → K) → Mag K → Mag K) :
+    (Q.valueInWithError types q err errf b2).map Prod.fst = Q.valueIn types q b2 := by
+  unfold Q.valueInWithError Q.valueIn
+  cases pick types q.bu b2 <;> rfl
+
 /-! ## The regenerated `UNIT_TYPES` and process lists -/
 
 section real
